@@ -45,8 +45,11 @@ pub struct Uni {
     pub shared_files: usize,
 }
 
-pub fn build_uni(p: &Placed, server: &mut Server) -> Result<Option<Uni>, String> {
+pub fn build_uni(p: &Placed, server: &mut Server, scratch: &std::path::Path) -> Result<Option<Uni>, String> {
     let v = view(p, server)?;
+    // with the `format` feature the text that reaches a file is the formatted one: take each
+    // definition's standalone text from a solo export into a scratch directory
+    let formatted = crate::subjects::CURRENT_CFG.lock().unwrap().as_ref().map_or(false, |c| c.features.iter().any(|f| f == "format"));
     if !v.problems.is_empty() {
         return Ok(None);
     }
@@ -59,7 +62,25 @@ pub fn build_uni(p: &Placed, server: &mut Server) -> Result<Option<Uni>, String>
         def_of_inst.push(*i);
         reach_of_inst.push(reachable_defs(p, &v, t).unwrap_or_default());
         if part_of_def[*i].is_none() {
-            if let Some(text) = okstr(&v.infos[t], "export_to_string") {
+            let solo_text = if formatted {
+                let dir = scratch.join(format!("solo_{}_{t}", p.module.name));
+                std::fs::remove_dir_all(&dir).ok();
+                std::fs::create_dir_all(&dir).map_err(|e| e.to_string())?;
+                server.request(&json!({"cmd": "reset"}))?;
+                server.request(&json!({"cmd": "setenv", "cwd": scratch.to_string_lossy(), "export_dir": dir.to_string_lossy()}))?;
+                let resp = server.request(&json!({"cmd": "export", "m": p.index, "t": t, "how": "export"}))?;
+                let text = paths::normalize(&dir.to_string_lossy(), &m.types[*i].expected_path()).and_then(|c| std::fs::read_to_string(paths::join(&c)).ok());
+                server.request(&json!({"cmd": "setenv", "cwd": scratch.to_string_lossy(), "export_dir": Value::Null}))?;
+                server.request(&json!({"cmd": "reset"}))?;
+                std::fs::remove_dir_all(&dir).ok();
+                if resp["ok"] != true {
+                    return Ok(None);
+                }
+                text
+            } else {
+                okstr(&v.infos[t], "export_to_string").map(|s| s.to_string())
+            };
+            if let Some(text) = solo_text.as_deref() {
                 match combine::parse_standalone(text, NOTE) {
                     Ok(s) => part_of_def[*i] = Some(s),
                     // outside the reference combiner's domain (known findings of the merge)
@@ -258,7 +279,9 @@ fn expected_files(uni: &Uni, state: &State) -> BTreeMap<String, String> {
         }
         for (f, ds) in by_file {
             let parts: Vec<combine::Standalone> = ds.iter().filter_map(|d| uni.part_of_def[*d].clone()).collect();
-            out.insert(f, combine::combine(NOTE, &parts));
+            // a file holding one type is that type's standalone text; only a merge re-renders the
+            // import lines (with the `format` feature the two differ in the order of the names)
+            out.insert(f, if parts.len() == 1 { parts[0].text.clone() } else { combine::combine(NOTE, &parts) });
         }
     }
     out
@@ -541,7 +564,7 @@ fn shrink_history(server: &mut Server, p: &Placed, uni: &Uni, h: &History, base:
 
 pub fn histories_module(p: &Placed, server: &mut Server, cwd: &std::path::Path, seed: u64, n: usize, with_fault: bool, replay: Option<&History>) -> ModResult {
     let mut r = ModResult::default();
-    let uni = match build_uni(p, server) {
+    let uni = match build_uni(p, server, cwd) {
         Ok(Some(u)) => u,
         Ok(None) => {
             r.extra.push(("universes_outside_combiner_domain".into(), 1));
@@ -595,7 +618,7 @@ pub fn histories_module(p: &Placed, server: &mut Server, cwd: &std::path::Path, 
 /// C05 at file level: permutations / prefixes / re-exports / thread schedules into one directory
 pub fn merge_module(p: &Placed, server: &mut Server, cwd: &std::path::Path, seed: u64, nperm: usize, nsched: usize) -> ModResult {
     let mut r = ModResult::default();
-    let uni = match build_uni(p, server) {
+    let uni = match build_uni(p, server, cwd) {
         Ok(Some(u)) => u,
         Ok(None) => {
             r.extra.push(("universes_outside_combiner_domain".into(), 1));
@@ -745,6 +768,19 @@ pub fn run_property(ctx: &Ctx, property: &'static str, out: &mut Outcome, known:
         collect(out, results, known, &mut distinct);
         if !out.violations.is_empty() {
             break;
+        }
+        // the same with the `format` feature: what is merged is dprint's output
+        if property != "C17" {
+            let n = if ctx.thorough() { 16 * 4 } else { 16 * 2 };
+            let modules = gen_modules(ctx, &profile_universe(), n, fnv(property) % 10_000 + 77 + round as u64 * 7919);
+            let cfg = subjects::SlotCfg { features: vec!["format".into(), "no-serde-warnings".into()], ..Default::default() };
+            let corpus = build(ctx, modules, &cfg);
+            out.bump("universes_built_with_format_feature", corpus.modules.len() as u64);
+            let results = for_each_module(ctx, &corpus, |p, s, cwd| module_check(property, p, s, cwd, ctx, None));
+            collect(out, results, known, &mut distinct);
+            if !out.violations.is_empty() {
+                break;
+            }
         }
     }
 }
